@@ -3,6 +3,7 @@
 #include "colvar.h"
 #include "colvarbias.h"
 #include "colvarbias_histogram.h"
+#include "colvarbias_abf.h"
 #include "colvargrid.h"
 
 template <typename G> static void dump_grid(Ctx &c, G *g, char const *tag)
@@ -27,6 +28,20 @@ bool ops_bias(Ctx &c, Toks const &t)
     o.clear();
     for (size_t i = 0; i < h->grid->data.size(); i++) o.push_back(ftok(h->grid->data[i]));
     c.out("data", join(o));
+    return true;
+  }
+  if (t[0] == "a.dump") {
+    colvarbias_abf *a = dynamic_cast<colvarbias_abf *>(cvm::bias_by_name(t[1]));
+    if (!a || !a->samples) { c.out("samples", "snone"); return true; }
+    std::vector<std::string> o;
+    for (size_t i = 0; i < a->samples->nx.size(); i++) o.push_back(itok(a->samples->nx[i]));
+    c.out("nx", join(o));
+    o.clear();
+    for (size_t i = 0; i < a->samples->data.size(); i++) o.push_back(itok((long long) a->samples->data[i]));
+    c.out("samples", join(o));
+    o.clear();
+    for (size_t i = 0; i < a->gradients->data.size(); i++) o.push_back(ftok(a->gradients->data[i]));
+    c.out("grad", join(o));
     return true;
   }
   return false;
